@@ -42,6 +42,8 @@ func TestVerif_C29(t *testing.T) {
 	res := kit.NewResult("one case = one storage state (after a key command, or after each of its mutating backend operations = crash point) of a TLC-generated history over key add / passwd / remove / remove-current with 3 passwords (same password on several keys included), commands optionally killed at their k-th mutating operation; on each state every password is tried with the real SearchKey (maxKeys 20) and with --key-hint for every key file; judged against the spec: opens <=> a present key file was created with that password, one master key, at least one working key, key in use not removable; distinct by (history, step, op index)")
 	tr := kit.NewNDJSON("trace.ndjson")
 	recs := kit.NewNDJSON("recs.ndjson")
+	many := kit.NewNDJSON("recs_many.ndjson")
+	defer many.Close()
 	defer tr.Close()
 	defer recs.Close()
 	hs := vLoadHistories(t)
@@ -134,6 +136,19 @@ func TestVerif_C29(t *testing.T) {
 					"masters": len(ms), "same_master": len(ms) == 1 && ms[0] == master, "hint_ok": hintOK})
 				res.Case(fmt.Sprintf("%d/%d/%d", hi, si, seq), true)
 			}
+		}
+		// the key limit: the final storage grown to 19 / 20 / 21 key files, every added key with its own password
+		if hi%kit.Pick(4, 6) == 0 {
+			rr := kit.Rand(int64(2900 + hi))
+			for _, total := range []int{vMaxKeys - 1, vMaxKeys, vMaxKeys + 1} {
+				if err := vManyKeys(l.e.store.Files(), rr, total, fmt.Sprintf("h%dk%d", hi, total), many, res); err != nil {
+					res.Problem("history %d: many keys: %v", hi, err)
+				}
+			}
+		}
+		// the repository-level guard of the key in use
+		if v := vRemoveCurrentDirect(l.e.store.Files(), l.e.gopts.Password); v != "" {
+			res.Violate("keys/key-in-use-removed/repository-level", fmt.Sprintf("history %d %v: %s", hi, h, v), map[string]any{"history": h})
 		}
 		if hi < 3 {
 			res.Sample(map[string]any{"history": h})
